@@ -87,11 +87,12 @@ func init() {
 		"atomic.LoadInt64":                atomicLoad,
 		"atomic.LoadInt32":                atomicLoad,
 		"strconv.Atoi": func(f *Frame, c *ssa.CallCommon, a []Val, st *State) Val {
-			// digit strings convert exactly (str.to_int); anything else: value and error are left open
+			// digit strings convert exactly (str.to_int); anything else: value and error are left open, but they are
+			// functions of the text (two conversions of the same text agree)
 			u := f.u
 			n := u.defs.Define("toint", App("str.to_int", SInt, a[0].T))
-			v := u.defs.Fresh("atoi_v", SInt)
-			e := u.defs.Fresh("atoi_err", SIface)
+			v := u.defs.Define("atoi_v", App("atoi_val", SInt, a[0].T))
+			e := u.defs.Define("atoi_e", App("atoi_err", SIface, a[0].T))
 			nilI := Term{"nil_iface", SIface}
 			inRange := App("<=", SBool, n, BigIntLit("9223372036854775807"))
 			u.assume(st, And(
@@ -181,6 +182,7 @@ func encPut(kind string) intrinsic {
 		srt := ArraySort(SInt, ArraySort(SInt, SInt))
 		arr := u.heapGet(st, cls, srt)
 		id := App("s_arr", SInt, buf)
+		u.retainedWrite(st, id)
 		u.heapSet(st, cls, u.defs.Define("H_"+cls, Store(arr, id, Store(Select(arr, id), App("s_off", SInt, buf), v))))
 		return Val{}
 	}
